@@ -274,7 +274,7 @@ def call(ex, st, fr, callee, last, args, argops, dest):
                     ks.append(k)
                     k += 1
                 return E._Alts([(cond_for(k), IV(k, "u32")) for k in ks])
-        return E._Alts([(cond_for(k), IV(k, "u32")) for k in range(0, w + 1)])
+        return E._Alts([(cond_for(k), IV(k, "u32"), (lambda s2, k=k: s2.tags.__setitem__("last_tz", k))) for k in range(0, w + 1)])
     if ity and c.endswith(">::from_le"):
         _use("core::num::<impl int>::from_le (little-endian target)")
         return args[0]
